@@ -174,6 +174,35 @@ theorem bufferVR_no_livelock (z : Tok α) : DeliversWithin (bufferVR z) 2 :=
     ⟨trivial, by simp [prInv, bufferVR, Elem.comp, pipeReady]⟩ (bufferVR_stepStable z).inv_step 2
     (fun s ins hs hc hl => bufferVR_del_window z s hs.2 ins hc hl)
 
+/-! ## The sink is served (`AcceptsWithin`) — basic elements -/
+
+theorem pipeValid_accepts (z : Tok α) : AcceptsWithin (pipeValid z) 1 :=
+  ReadyTransparent.accepts (Inv := fun _ => True) (fun s v t _ => (pipeValid_back z).ready s v t trivial) trivial
+    (fun _ _ _ => trivial)
+
+/-- A parked token leaves in one cycle, then the sink is ready again. -/
+theorem pipeReady_accepts (z : Tok α) : AcceptsWithin (pipeReady z) 2 :=
+  acceptsWithin_of_measure _ prInv (by simp [prInv, pipeReady]) (pipeReady_inv_step z)
+    (fun s => if s.valid then 1 else 0) 1 (fun s _ => by split <;> omega) (pipeReady_acc_dec z)
+
+theorem wire_accepts : AcceptsWithin (wire (α := α)) 1 :=
+  wire_readyTransparent.accepts trivial (fun _ _ _ => trivial)
+
+theorem cast_accepts (f : α → β) : AcceptsWithin (mapElem f) 1 :=
+  (mapElem_readyTransparent f).accepts trivial (fun _ _ _ => trivial)
+
+/-- A full FIFO pops under a ready consumer and is writable in the next cycle. -/
+theorem syncFifo_accepts (depth : Nat) (hd : 0 < depth) (z : Tok α) : AcceptsWithin (syncFifo depth z) 2 :=
+  acceptsWithin_of_measure _ (fifoInv depth) (by simp [fifoInv, syncFifo]) (syncFifo_inv_step depth z)
+    (fun q => if q.length = depth then 1 else 0) 1 (fun q _ => by split <;> omega) (syncFifo_acc_dec depth hd z)
+
+theorem syncFifoBuffered_accepts (depth : Nat) (hd : 2 ≤ depth) (z : Tok α) :
+    AcceptsWithin (syncFifoBuffered depth z) 2 :=
+  acceptsWithin_of_measure _ (fbInv depth) (by simp [fbInv, syncFifoBuffered])
+    (syncFifoBuffered_inv_step depth (by omega) z)
+    (fun s => if s.q.length = depth then 1 else 0) 1 (fun s _ => by split <;> omega)
+    (syncFifoBuffered_acc_dec depth hd z)
+
 /-! ## Progress through composition
 
   `DelMeasure e Inv μ B`: `Inv` is inductive, `μ ≤ B` on `Inv`, and in every cooperative cycle from an `Inv` state
